@@ -469,7 +469,7 @@ func c04r4(c *an.Ctx) {
 				} else {
 					okF := false
 					for _, g := range an.GuardsOf(ret.Block()) {
-						if call, ok := g.Cond.(*ssa.Call); ok && g.True && an.IsCallTo(call.Common(), isFin) {
+						if call, ok := g.Cond.(*ssa.Call); ok && g.True && (an.IsCallTo(call.Common(), isFin) || (an.IsCallTo(call.Common(), sa.sigIsSet) && recvField(call.Common()) == sa.fin.Origin())) {
 							okF = true
 						}
 					}
@@ -491,13 +491,14 @@ func c04r5(c *an.Ctx) {
 	fl := a.obj("drpcwire", "(*Writer).Flush")
 	spl := a.obj("drpcstream", "(*Stream).sendPacketLocked")
 	cce := a.obj("drpcstream", "(*Stream).checkCancelError")
+	wapi := writerAPI(c)
 	isSource := func(v ssa.Value) bool {
 		call, ok := v.(*ssa.Call)
 		if !ok {
 			return false
 		}
 		cc := call.Common()
-		return an.IsCallTo(cc, wf) || an.IsCallTo(cc, fl) || an.IsCallTo(cc, spl)
+		return an.IsCallTo(cc, wf) || an.IsCallTo(cc, fl) || an.IsCallTo(cc, spl) || wapi.emits(cc) || wapi.flushes(cc)
 	}
 	// derives: does v derive from a writer error without passing checkCancelError?
 	var raw func(v ssa.Value, depth int) ssa.Value
@@ -583,12 +584,8 @@ func c04r6(c *an.Ctx) {
 			"recv Manager.sfin":                "finished token: sent exactly once per stream (C03.R5) after the cancel issued on this path (C04.R3)",
 			"call (*Chan).Recv on Manager.sem": "releases the semaphore this stream holds: never blocks (C02.R6)",
 		},
-		"(*Manager).acquireSemaphore": {
-			"call (*Chan).Recv on Manager.sem": "releases the semaphore just acquired: never blocks (C02.R6)",
-		},
 		"(*Manager).NewServerStream": { // closures of a function are looked up under the function
 			"call (*Chan).Send on Manager.pdone": "capacity 1, one send per receive from m.pkts (C06.R5)",
-			"call (*Chan).Recv on Manager.sem":   "releases the semaphore acquired by this call (C02.R6)",
 		},
 		"(*Manager).Close": {
 			"call (*Signal).Wait on Manager.sigs.stream": "set by manageStreams' first defer (C12.R1)",
@@ -605,6 +602,7 @@ func c04r6(c *an.Ctx) {
 	sbWait := a.obj("drpcmanager", "(*streamBuffer).Wait")
 	condWait := a.obj("sync", "(*Cond).Wait")
 	nBare := 0
+	held := map[*ssa.Function]map[ssa.Instruction]bool{}
 	for _, fn := range fns {
 		an.Instrs(fn, func(in ssa.Instruction) {
 			id := ""
@@ -665,6 +663,22 @@ func c04r6(c *an.Ctx) {
 				owner = owner[:i]
 			}
 			why, ok := reviewed[owner][id]
+			if !ok && id == "call (*Chan).Recv on Manager.sem" {
+				// a release of the semaphore on paths that hold it cannot block (capacity 1, C02.R6)
+				root := fn
+				for root.Parent() != nil {
+					root = root.Parent()
+				}
+				if held[root] == nil {
+					held[root] = semReleasesHeld(c, root)
+					if held[root] == nil {
+						held[root] = map[ssa.Instruction]bool{}
+					}
+				}
+				if held[root][in] {
+					why, ok = "releases the semaphore held on every path reaching it: never blocks (capacity 1, C02.R6)", true
+				}
+			}
 			c.Check(ok, owner+" | bare blocking op: "+id, c.At(in), why, "a blocking operation without a term/ctx alternative that is not in the reviewed, paired set: nothing is known to wake it")
 		})
 	}
